@@ -185,12 +185,21 @@ def reload_scripts(rng, n):
                   {"t": "reload", "services": [list(svcs[1])]}, {"t": "reload", "services": [list(svcs[1]), ["new.svc", newp]]},
                   {"t": "nick", "id": cid, "name": "n5"}, {"t": "userinfo", "id": cid, "user": "u5", "real": "R"},
                   {"t": "reply", "svc": "keep.svc", "tag": "5_1", "text": "OK"}, {"t": "hurry", "id": cid}, {"t": "timeout", "id": cid}, {"t": "stats"}]
+            if (k_ // 13) % 2 == 1:
+                # ... or the client already has all its data (keep.svc is asked and silent) when the reloads happen, and NOTHING more
+                # is said about it: the request timer accepts it
+                ev = ev[:3] + ev[7:9] + ev[3:5] + ev[5:7] + [{"t": "timeout", "id": cid}, {"t": "stats"}]
             out.append((cfg, ev))
             continue
+        two_step = None
         if kind == "more-then-replaced":
             # the challenger is removed and ANOTHER service is added by the same reload (it may take the challenger's place in the table)
             after = [svcs[1], ("new.svc", rng.choice(["login", "login-ipr", "dronecheck"]))]
             kind = "more-then-removed"
+            if (k_ // 13) % 2 == 1:
+                # ... or by the next reload, when the challenger's entry is gone for good
+                two_step = after
+                after = [svcs[1]]
         cids = [5, 9] if kind in ("two-waiters", "leaver-then-removed", "retry-then-removed") else [5]
         ev = []
         ser = {}
@@ -212,7 +221,8 @@ def reload_scripts(rng, n):
                              {"t": rng.choice(["disconnect", "registered"]), "id": 5}, {"t": "stats"},
                              {"t": "reply", "svc": "chal.svc", "tag": tag(5), "text": "OK acct5"}]
         elif kind == "more-then-removed":
-            ev += [{"t": "reply", "svc": "chal.svc", "tag": tag(5), "text": "MORE prove it"}, reload_ev, {"t": "password", "id": 5, "text": "response1"}]
+            ev += [{"t": "reply", "svc": "chal.svc", "tag": tag(5), "text": "MORE prove it"}, reload_ev] + \
+                  ([{"t": "reload", "services": [list(x) for x in two_step]}] if two_step else []) + [{"t": "password", "id": 5, "text": "response1"}]
             if rng.random() < 0.4:
                 ev += [{"t": "password", "id": 5, "text": "-! acct5 pw2"}]
             ev += finish(5)
